@@ -923,6 +923,12 @@ class ArgumentParser(ParserDeprecations, ActionsContainer, ArgumentLinking, argp
                 with parser_context(load_value_mode=self.parser_mode):
                     self.validate(strip_meta(cfg), branch=branch)
 
+            files = {}  # absolute path -> content of every file to write; nothing is opened until all are known
+
+            def add_file(file_path, content):
+                if files.setdefault(file_path, content) != content:
+                    raise ValueError(f"Refusing to save different contents to the same file: {file_path}")
+
             def save_paths(cfg):
                 for key in cfg.get_sorted_keys():
                     val = cfg[key]
@@ -931,29 +937,33 @@ class ArgumentParser(ParserDeprecations, ActionsContainer, ArgumentLinking, argp
                         if isinstance(action, (ActionJsonSchema, ActionJsonnet, ActionTypeHint, _ActionConfigLoad)):
                             val_path = Path(os.path.basename(val["__path__"].absolute), mode="fc")
                             check_overwrite(val_path)
-                            val_out = strip_meta(val)
-                            if isinstance(val, Namespace):
-                                val_out = val_out.as_dict()
                             if "__orig__" in val:
                                 val_str = val["__orig__"]
                             else:
+                                val_out = Namespace()
+                                val_out[key] = strip_meta(val)
+                                cleanup_kwargs = {"skip_validation": skip_validation, "skip_none": skip_none}
+                                self._dump_cleanup_actions(val_out, self._actions, cleanup_kwargs)
+                                val_out = val_out.as_dict()
+                                for subkey in split_key(key):
+                                    val_out = val_out[subkey]
                                 is_json = str(val_path).lower().endswith(".json")
                                 val_str = dump_using_format(self, val_out, "json_indented" if is_json else format)
-                            with open(val_path.absolute, "w") as f:
-                                f.write(val_str)
+                            add_file(val_path.absolute, val_str)
                             cfg[key] = os.path.basename(val_path.absolute)
                     elif isinstance(val, Path) and key in self.save_path_content and "r" in val.mode:
                         val_path = Path(os.path.basename(val.absolute), mode="fc")
                         check_overwrite(val_path)
-                        with open(val_path.absolute, "w") as f:
-                            f.write(val.get_content())
-                        cfg[key] = type(val)(str(val_path))
+                        add_file(val_path.absolute, val.get_content())
+                        cfg[key] = str(val_path)
 
-            with change_to_path_dir(path_fc), parser_context(parent_parser=self):
+            with change_to_path_dir(path_fc), parser_context(parent_parser=self, load_value_mode=self.parser_mode):
                 save_paths(cfg)
             dump_kwargs["skip_validation"] = True
-            with open(path_fc.absolute, "w") as f:
-                f.write(self.dump(cfg, **dump_kwargs))  # type: ignore[arg-type]
+            add_file(path_fc.absolute, self.dump(cfg, **dump_kwargs))  # type: ignore[arg-type]
+            for file_path, content in files.items():
+                with open(file_path, "w") as f:
+                    f.write(content)
 
     ## Methods related to defaults ##
 
